@@ -2,31 +2,29 @@
 """Apply each seeded change in /verif/seeded to /repo, run the listed quick checks, undo, record which checks caught it."""
 import json, os, subprocess, sys, time
 ROOT='/verif'
+REPO=os.environ.get('SWEEP_REPO','/repo')   # a scratch worktree of /repo (git worktree add <dir> HEAD) so that /repo itself stays usable
 only=sys.argv[1:]
 for sid in sorted(os.listdir(os.path.join(ROOT,'seeded'))):
     d=os.path.join(ROOT,'seeded',sid)
     mp=os.path.join(d,'meta.json')
     if not os.path.exists(mp) or (only and sid not in only): continue
+    if not only and json.load(open(mp)).get('status') in ('detected',): continue
     meta=json.load(open(mp))
-    assert subprocess.run(['git','-C','/repo','status','--porcelain'],capture_output=True,text=True).stdout.strip()=='' , "/repo not clean"
-    r=subprocess.run(['git','-C','/repo','apply',os.path.join(d,'patch.diff')],capture_output=True,text=True)
+    assert subprocess.run(['git','-C',REPO,'status','--porcelain'],capture_output=True,text=True).stdout.strip()=='' , "/repo not clean"
+    r=subprocess.run(['git','-C',REPO,'apply',os.path.join(d,'patch.diff')],capture_output=True,text=True)
     if r.returncode!=0:
         meta['status']='patch no longer applies: '+r.stderr[:200]; json.dump(meta,open(mp,'w'),indent=1); print(sid,'PATCH-FAILED'); continue
     det=[]; runs={}
     try:
         for c in meta['checks_to_run']:
             t0=time.time()
-            env=dict(os.environ); env['VERIF_WORK']='/var/tmp'; env.setdefault('VERIF_SHRINKTIME','15s')
+            env=dict(os.environ); env['VERIF_WORK']='/var/tmp'; env.setdefault('VERIF_SHRINKTIME','15s'); env['VERIF_REPO']=REPO; env['VERIF_EVIDENCE_DIR']='/var/tmp/sweep-evidence'; env['VERIF_REPLAY_DIR']='/var/tmp/sweep-replays'
             p=subprocess.run([os.path.join(ROOT,'vcheck'),'run','-p',c,'-t','quick'],capture_output=True,text=True,cwd=ROOT,env=env)
             v=[l for l in p.stdout.splitlines() if l.startswith('VIOLATION')]
             runs[c]={"exit":p.returncode,"wall_s":round(time.time()-t0),"violation":v[:2]}
             if p.returncode==1 and v: det.append(c)
     finally:
-        subprocess.run(['git','-C','/repo','checkout','--','.'])
+        subprocess.run(['git','-C',REPO,'checkout','--','.'])
     meta['detected_by']=det; meta['runs']=runs; meta['status']='detected' if det else 'MISSED'
     json.dump(meta,open(mp,'w'),indent=1)
     print(sid, meta['status'], det, flush=True)
-# restore evidence files clobbered by runs against modified trees
-subprocess.run(['git','-C',ROOT,'checkout','--','evidence'])
-for f in os.listdir(os.path.join(ROOT,'replays')):
-    pass
